@@ -30,7 +30,7 @@ if ap_.returncode:
 rc_mut = demo_rc()
 suite = None
 if not ns.no_suite:
-    r = sh(f"python3 /tmp/wt/tools/check_suite.py {wt}")
+    r = sh(f"python3 /verif/tools/check_suite.py {wt}")
     suite = (r.returncode, r.stdout.strip()[-200:])
 sh(f"git -C {wt} checkout -- . && git -C {wt} clean -fdq")
 props = ns.props or sorted({ns.prop, "C03", "C12"})
